@@ -31,7 +31,9 @@ def pool(ctx):
           [1, 'a'], ['a', 1], [1, None], [True], [1.5], ['1'], ['True'], [b'a'], ['a'], [{'a': 1}], [{'a': 1}, {'a': 1}], [[1, 2], [2, 1]], [[1, 2], [1, 2]],
           ['x', 'x', 'y'], ['x', 'y', 'y'], ['x', 'y'], [2, 2, 1], [1, 2, 2],
           [1, [1]], [1, []], [1, [2, 1]], [1, [2]], ['a', ('a', 'b')], ['a', ('b',)], [1, {'k': 1}], [1, {}], [[1], 1], [[], 1], ('a', ['a']), ('a', []),
-          {'k': 1, 'j': [1]}, {'k': 1, 'j': []}, [2, [1, [2]]], [2, [1, []]]]
+          {'k': 1, 'j': [1]}, {'k': 1, 'j': []}, [2, [1, [2]]], [2, [1, []]],
+          # keys with underscores in every position (only a leading double underscore marks a private key)
+          {'_id__gt': 1}, {'_id__gt': 2}, {'_user__name': 1}, {'_id': 1}, {'id__gt': 1}, {'_User__token': 'a'}, {'a_': 1}, {'_': 1}, [{'_id__gt': 1}], [{}]]
     # long numbers that differ beyond the usual precision, and the other numeric / date-like leaf types
     import decimal as _dc, datetime as _dtm, uuid as _uuid
     D = _dc.Decimal
@@ -85,6 +87,38 @@ def shared_table(ctx):
         ctx.count('shared_table')
 
 
+def instants(ctx):
+    """datetimes under default_timezone: aware values are equal exactly when they are the same instant (whatever their offset, zero included), a naive
+    value stands for its wall time in the default timezone"""
+    import datetime as _dtm
+    from deepdiff import DeepHash
+    tzs = [_dtm.timezone.utc, _dtm.timezone(_dtm.timedelta(hours=5)), _dtm.timezone(_dtm.timedelta(hours=-3, minutes=-30)), _dtm.timezone(_dtm.timedelta(0), 'GMT'), None]
+    walls = [(2024, 5, 1, 12, 0, 0), (2024, 5, 1, 7, 0, 0), (2024, 5, 1, 17, 0, 0), (2024, 5, 1, 15, 30, 0), (2024, 5, 1, 12, 0, 1)]
+    vals = [_dtm.datetime(*w, tzinfo=tz) for w in walls for tz in tzs]
+    for default in [_dtm.timezone(_dtm.timedelta(hours=5)), _dtm.timezone(_dtm.timedelta(hours=-3, minutes=-30)), _dtm.timezone.utc]:
+        def instant(v):
+            return (v if v.tzinfo is not None else v.replace(tzinfo=default)).astimezone(_dtm.timezone.utc)
+        for mname in CLAIMED:
+            rep, order = HS.MODES[mname]
+            kw = dict(ignore_repetition=rep, ignore_iterable_order=order, default_timezone=default)
+            for wrap, wname in ((lambda v: v, 'bare'), (lambda v: [v, 1], 'in a list'), (lambda v: {'k': v}, 'as a dictionary value')):
+                hs = []
+                for v in vals:
+                    w = wrap(v)
+                    try:
+                        hs.append(DeepHash(w, **kw)[w])
+                    except Exception as e:
+                        hs.append('raised ' + type(e).__name__ + repr(v))
+                for i, j in itertools.combinations(range(len(vals)), 2):
+                    ctx.evaluations += 1
+                    ctx.count('instants:' + mname)
+                    if hs[i] == hs[j] and instant(vals[i]) != instant(vals[j]):
+                        ctx.violate({'a': repr(vals[i]), 'b': repr(vals[j]), 'mode': mname, 'scenario': '%s, default_timezone=%r' % (wname, default)},
+                                    'same hash although the two datetimes are different instants')
+                    elif instant(vals[i]) != instant(vals[j]):
+                        ctx.nontriv((repr(vals[i]), repr(vals[j]), mname, wname, repr(default)))
+
+
 def run(ctx, impl_only=False):
     findings = {f['id']: f for f in core.load_findings(ID) if f.get('status') == 'open'}
     P = pool(ctx)
@@ -124,6 +158,7 @@ def run(ctx, impl_only=False):
                 ctx.count('equivalent_but_different_hash')      # the other direction belongs to C06; recorded, not judged here
         ctx.sample({'mode': mname, 'pool_size': len(P)})
     shared_table(ctx)
+    instants(ctx)
     # ---- boundary witnesses
     from deepdiff import DeepHash, DeepDiff
     def h(v, **kw):
